@@ -162,15 +162,14 @@ def parseConvCycle (s : String) : Option ConvCycle :=
     pure { full := full, leader := l, acct := a, world := ← parseList parseIng w "&" }
   | _ => none
 
-/-- Spec on the observed queue operations of storages-level cycles; a cycle in which the
-harness itself broke the converter contract (in-place acquisition) is not judged -/
+/-- Spec on the observed queue operations of storages-level cycles (any cycle: no contract on
+what is removed or acquired) -/
 def oracleCycles : Storages → List Cycle → List (List QOp) → Option String
   | _, [], _ => none
   | _, _ :: _, [] => some "missing-output"
   | s, c :: cs, o :: os =>
     let s' := (cycle s c).1
-    let v := if decide (c.wf s) then oracleCycle c.full c.leader c.acct s.items s'.items o else none
-    match v with
+    match oracleCycle c.full c.leader c.acct s.items s'.items o with
     | some e => some e
     | none => oracleCycles s' cs os
 
@@ -183,7 +182,11 @@ def handle (args : List String) (impl : String) : Verdict :=
                        declared := parseNames decl, sign := sign, setErr := setErr }
       let m := notify i
       match parseVOut impl with
-      | some o => { model := showVOut m, agree := m = o, oracle := oracleVerify i o }
+      | some o =>
+        -- items always carry a domain (`conv_items_have_domains`, conv oracle): the empty declared set
+        -- is outside the signer's precondition; still compared with the model, not judged
+        { model := showVOut m, agree := m = o,
+          oracle := if i.declared.isEmpty then none else oracleVerify i o, trivial := i.declared.isEmpty }
       | none => { model := showVOut m, agree := false, oracle := some "panic-verify" }
     | _, _, _, _, _, _ => bad "parse-verify"
   | ["st", ops] =>
